@@ -162,7 +162,7 @@ pub async fn run_case(c: Case) -> Result<CaseInfo, Failure> {
                     if deferred {
                         app.hold(gate.0, gate.1);
                     }
-                    if is_pub && neg >= 0x80 {
+                    if is_pub && neg != 0 {
                         app.pub_plans.borrow_mut().insert(gate.1, PubPlan { outcome: Outcome::NegAck(neg), read: ReadPlan::Eager });
                     }
                 }
@@ -367,9 +367,140 @@ pub async fn run_case(c: Case) -> Result<CaseInfo, Failure> {
     Ok(info)
 }
 
+/// Deterministic scenarios: reuse of a QoS 2 id while the PUBREL is being handled (PUBCOMP not produced yet).
+#[derive(Clone, Copy, Debug, PartialEq, Eq, Hash, Serialize, Deserialize)]
+pub struct RelWindow {
+    pub role: Role,
+    /// what re-uses the id: 1 PUBLISH QoS 1, 2 PUBLISH QoS 2, 3 SUBSCRIBE
+    pub reuse: u8,
+    /// v5: reason code of the PUBREC (0 or the non-error 0x10)
+    pub rec_reason: u8,
+    /// the reuse attempt comes while the PUBREL handler runs (true) or before the PUBREL (false)
+    pub during_rel: bool,
+}
+
+pub async fn run_rel_window(x: RelWindow) -> Result<CaseInfo, Failure> {
+    let role = x.role;
+    let ff = |rule: &str, detail: String| Failure::new(rule, format!("C11/{}/{rule}", role.name()), detail);
+    let cfg = Cfg::default();
+    let eut = Eut::start(role, &cfg).await;
+    eut.handshake(&cfg).await;
+    let app = eut.app().clone();
+    let v5 = role.is_v5();
+    if v5 && x.rec_reason != 0 {
+        app.pub_plans.borrow_mut().insert(0, PubPlan { outcome: Outcome::NegAck(x.rec_reason), read: ReadPlan::Eager });
+    }
+    let q2 = P5::Publish(Box::new(s5::Publish5 { qos: 2, pid: Some(1), topic: "t/a".into(), ..Default::default() }));
+    eut.peer_send(&q2, &[]);
+    eut.settle().await;
+    let (pk, _) = eut.packets();
+    if !pk.iter().any(|w| matches!(&w.pkt, P5::PubRec(a) if a.pid == 1 && a.reason < 0x80)) {
+        return Err(ff("harness-scenario", format!("no PUBREC for the first publish: {:?}", pk.iter().map(|w| w.pkt.kind()).collect::<Vec<_>>())));
+    }
+    if x.during_rel {
+        // the protocol handler of the PUBREL is held: PUBCOMP cannot have been produced
+        app.hold(G_CTL, 0);
+        eut.peer_send(&P5::PubRel(s5::Ack5 { pid: 1, ..Default::default() }), &[]);
+        eut.settle().await;
+        if !app.events().iter().any(|e| matches!(e, Ev::CtlEnter { kind: CtlKind::PubRel, .. })) {
+            return Err(Failure::new(
+                "pubrel-not-delivered",
+                format!("C11/{}/pubrel-not-delivered", role.name()),
+                format!("PUBREL for id 1 (PUBREC reason {:#x}) did not reach the protocol handler; written {:?}", x.rec_reason, eut.packets().0.iter().map(|w| format!("{:?}", w.pkt)).collect::<Vec<_>>()),
+            ));
+        }
+    }
+    let enters_before = app.events().iter().filter(|e| matches!(e, Ev::PubEnter { .. } | Ev::CtlEnter { kind: CtlKind::Subscribe, .. })).count();
+    let wire_before = eut.packets().0.len();
+    let reuse = match x.reuse {
+        1 => P5::Publish(Box::new(s5::Publish5 { qos: 1, pid: Some(1), topic: "t/b".into(), ..Default::default() })),
+        2 => P5::Publish(Box::new(s5::Publish5 { qos: 2, pid: Some(1), topic: "t/b".into(), ..Default::default() })),
+        _ => P5::Subscribe(s5::Sub5 { pid: 1, filters: vec![("a/b".into(), s5::SubOpts::default())], ..Default::default() }),
+    };
+    eut.peer_send(&reuse, &[]);
+    eut.settle().await;
+    let paused = eut.peer().unread() > 0;
+    let delivered = |app: &App| app.events().iter().filter(|e| matches!(e, Ev::PubEnter { .. } | Ev::CtlEnter { kind: CtlKind::Subscribe, .. })).count() != enters_before;
+    if delivered(&app) {
+        return Err(Failure::new(
+            "in-use-id-delivered",
+            format!("C11/{}/in-use-id-delivered/qos2-before-pubcomp", role.name()),
+            format!("id 1 is in a QoS 2 exchange (PUBREC reason {:#x}, PUBREL {}), PUBCOMP not produced, but packet kind {} re-using it reached a handler", x.rec_reason, if x.during_rel { "being handled" } else { "not sent yet" }, x.reuse),
+        ));
+    }
+    if v5 && !paused {
+        let (pk, _) = eut.packets();
+        let answered = pk[wire_before..].iter().any(|w| match &w.pkt {
+            P5::PubAck(a) | P5::PubRec(a) => a.pid == 1 && a.reason == 0x91,
+            P5::SubAck(a) => a.pid == 1 && a.codes.iter().all(|c| *c == 0x91),
+            _ => false,
+        });
+        // the answer may be queued behind the PUBCOMP that is still to come: judged after the gate opens
+        if !answered && !x.during_rel {
+            return Err(ff("in-use-not-answered-0x91", format!("reuse kind {} of id 1 before PUBREL: written {:?}", x.reuse, pk[wire_before..].iter().map(|w| format!("{:?}", w.pkt)).collect::<Vec<_>>())));
+        }
+    }
+    app.open_all();
+    eut.settle().await;
+    if delivered(&app) && !paused {
+        return Err(Failure::new(
+            "in-use-id-delivered",
+            format!("C11/{}/in-use-id-delivered/qos2-before-pubcomp", role.name()),
+            format!("packet kind {} re-using id 1 of an open QoS 2 exchange reached a handler after the gates were opened", x.reuse),
+        ));
+    }
+    let (pk, _) = eut.packets();
+    if v5 {
+        if !paused {
+            let n91 = pk.iter().filter(|w| match &w.pkt {
+                P5::PubAck(a) | P5::PubRec(a) => a.pid == 1 && a.reason == 0x91,
+                P5::SubAck(a) => a.pid == 1 && a.codes.iter().all(|c| *c == 0x91),
+                _ => false,
+            }).count();
+            if n91 != 1 || !app.stops().is_empty() {
+                return Err(ff("in-use-not-answered-0x91", format!("reuse kind {} of id 1: {n91} answers with 0x91, stops {:?}; written {:?}", x.reuse, app.stops(), pk.iter().map(|w| format!("{:?}", w.pkt)).collect::<Vec<_>>())));
+            }
+        }
+        if x.during_rel {
+            let comps: Vec<u8> = pk.iter().filter_map(|w| if let P5::PubComp(a) = &w.pkt { (a.pid == 1).then_some(a.reason) } else { None }).collect();
+            if comps != vec![0] {
+                return Err(ff("pubcomp", format!("exactly one successful PUBCOMP expected for id 1, got reasons {comps:?}")));
+            }
+        }
+    } else {
+        let stops = app.stops();
+        if !paused && !stops.iter().any(|s| matches!(s, StopKind::Protocol(d) if d.contains("2_2_1_3"))) {
+            return Err(ff("in-use-not-violation", format!("MQTT 3.1.1: reuse kind {} of id 1 inside its QoS 2 exchange did not end the connection with protocol violation 2.2.1-3: stops {stops:?}", x.reuse)));
+        }
+    }
+    eut.finish().await;
+    let mut info = CaseInfo::nontrivial(&x).label("reuse-inside-qos2-exchange");
+    if paused {
+        info.labels.push("reader-paused");
+    }
+    if x.during_rel {
+        info.labels.push("pubrel-handler-running");
+    }
+    Ok(info)
+}
+
+pub fn rel_window_cases() -> Vec<RelWindow> {
+    let mut out = Vec::new();
+    for role in [Role::V3Server, Role::V5Server] {
+        for reuse in 1..4u8 {
+            for during_rel in [false, true] {
+                for rec_reason in if role.is_v5() { vec![0u8, 0x10] } else { vec![0u8] } {
+                    out.push(RelWindow { role, reuse, rec_reason, during_rel });
+                }
+            }
+        }
+    }
+    out
+}
+
 fn op_strategy() -> BoxedStrategy<Op> {
     prop_oneof![
-        4 => (1u8..3, 1u16..4, any::<bool>(), prop_oneof![4 => Just(0u8), 1 => Just(0x87u8)]).prop_map(|(qos, id, deferred, neg)| Op::Pub { qos, id, deferred, neg }),
+        4 => (1u8..3, 1u16..4, any::<bool>(), prop_oneof![4 => Just(0u8), 1 => Just(0x87u8), 1 => Just(0x10u8)]).prop_map(|(qos, id, deferred, neg)| Op::Pub { qos, id, deferred, neg }),
         2 => (1u16..4, any::<bool>()).prop_map(|(id, deferred)| Op::Sub { id, deferred }),
         2 => (1u16..4, any::<bool>()).prop_map(|(id, deferred)| Op::Unsub { id, deferred }),
         2 => (1u16..4).prop_map(|id| Op::Rel { id }),
@@ -392,6 +523,8 @@ fn exhaustive(ctx: &Ctx) -> Stats {
             alphabet.push(Op::Pub { qos: 2, id, deferred, neg: 0 });
             alphabet.push(Op::Sub { id, deferred });
         }
+        // v5: PUBREC with a non-error reason code keeps the exchange open
+        alphabet.push(Op::Pub { qos: 2, id, deferred: false, neg: 0x10 });
         alphabet.push(Op::Unsub { id, deferred: false });
         alphabet.push(Op::Rel { id });
     }
@@ -439,6 +572,11 @@ pub fn check_case(c: &Case) -> Result<CaseInfo, Failure> {
 
 pub fn run(ctx: &Ctx, started: Instant) -> i32 {
     let mut stats = exhaustive(ctx);
+    {
+        let mut st = Stats::default();
+        run_list_bed("C11", rel_window_cases(), &mut st, |x| json!({"rel_window": x}), run_rel_window);
+        stats.merge(st);
+    }
     let per_shard = ctx.tier.pick(2_000u32, 40_000);
     let rnd = par_shards(WORKERS, |shard| {
         let mut st = Stats::default();
@@ -449,7 +587,7 @@ pub fn run(ctx: &Ctx, started: Instant) -> i32 {
     let report = Report {
         level: "exploration",
         rule: "exhaustive: every history of 3 (quick) / 4 (thorough) packet ops over {PUBLISH QoS1/QoS2 (immediate or gated), SUBSCRIBE (immediate or gated), UNSUBSCRIBE, PUBREL} x ids {1,2} x three gate-opening \
-               placements, v3/v5 servers (and clients for the PUBLISH/PUBREL subset); random: 2..10 ops over ids {1,2,3} with v5 negative acks and arbitrary gate openings. Model: reserved-id map with per-exchange \
+               placements, v3/v5 servers (and clients for the PUBLISH/PUBREL subset); random: 2..10 ops over ids {1,2,3} with v5 negative acks (0x87) and the non-error PUBREC/PUBACK code 0x10 and arbitrary gate openings; deterministic: reuse of a QoS 2 id by PUBLISH QoS 1/2 or SUBSCRIBE before the PUBREL and while the PUBREL's protocol handler is held (PUBCOMP not produced), PUBREC reason 0 / 0x10, v3 and v5 servers. Model: reserved-id map with per-exchange \
                release point observed on the wire; a reuse attempt is only judged when the id is clearly in use (handler gated / awaiting PUBREL) or clearly released (acknowledgement on the wire). \
                Non-trivial = history contains a reuse attempt; distinct = (role, (kind of reuse, kind of first use, released?) list)"
             .into(),
@@ -465,6 +603,10 @@ pub fn run(ctx: &Ctx, started: Instant) -> i32 {
 
 pub fn replay(path: &str) -> i32 {
     let case = super::load_case(path);
+    if !case["rel_window"].is_null() {
+        let res = serde_json::from_value::<RelWindow>(case["rel_window"].clone()).map_err(|e| e.to_string()).map(|x| run_isolated("C11", x, &run_rel_window));
+        return super::report_replay("C11", path, res);
+    }
     let res = serde_json::from_value::<Case>(case["case"].clone()).map_err(|e| e.to_string()).map(|c| check_case(&c));
     super::report_replay("C11", path, res)
 }
